@@ -51,6 +51,10 @@ def inputs(tier):
     for ci in cfg_inputs:
         for name in sorted(CFG_EDITS):
             out.append(dict(ci, cfg=name))
+    # the request for alternative states in an earlier calculation of the same process must not carry over
+    for ci in coupled_inputs:
+        for pj in (0, 2):
+            out.append(dict(ci, prior=pj))
     if tier == 'thorough':
         out += [dict(src='corpus', d=corpus.file_desc(k)) for k in ('3SGB', '1HPX')]
     return out
@@ -111,7 +115,7 @@ def plan(tier, seed):
                 rule=('inputs: every multiset of 3 kinds (quick: 6 kinds; thorough: 12 kinds, 2 layouts, 3 burial levels), all ordered '
                       'acid-acid and base-base pairs of 6 kinds and 9 acid-base pairs at contact distances and burial levels, 10 A cut-outs '
                       'around titratable residues (quick: every third); 11 coupled inputs under 68 parameter files that move each threshold of '
-                      'the analysis (min/max pKa on a 0.5 grid from 0 to 14, interaction energy, free-energy difference, swap shift, intrinsic pKa difference, reference). non-trivial = distinct inputs in which the analysis marks at least '
+                      'the analysis, and after an earlier -d calculation in the same process (min/max pKa on a 0.5 grid from 0 to 14, interaction energy, free-energy difference, swap shift, intrinsic pKa difference, reference). non-trivial = distinct inputs in which the analysis marks at least '
                       'one coupled pair; the number of inputs in which at least one swap is evaluated is reported separately'),
                 bounds=dict(inputs=len(ins)), samples=[ins[0], ins[-1]])
 
@@ -125,6 +129,9 @@ def run_case(case, ctx, acc):
     opts = tuple(case.get('opts', ())) + cfg_opts(case)
     try:
         pk.seam_coupling_analysis(True)
+        if case.get('prior') is not None:
+            prior = [corpus.pair_desc('GLU', 'GLU', 2.8, 'deep'), corpus.cutout_desc('1HPX', 'A', 24, 12.0), corpus.pair_desc('ASP', 'ASP', 2.8, 'mid')][case['prior']]
+            pk.run(gen.to_text(corpus.build(prior, ctx.seed)), ('-d',))
         m_on = pk.run(text, opts)
         r_on = pk.record(m_on)
         pk.seam_coupling_analysis(False)
